@@ -30,3 +30,9 @@ Check c07_v2_subscribe_is_core : forall st p l buf st' h,
 Check c07_refused_handler_subscription_no_effect : forall st p,
   (forall path fl st' c, Api.v1_subscribe st p path fl = (st', inr c) -> st' = st) /\
   (forall l buf st' c, Api.v2_subscribe st p l buf = (st', inr c) -> st' = st).
+Check c07_v1_multi_entry_union : forall st p l es,
+  Api.v1_sub_all st p l [] = inl es ->
+  forall path fl sel id f, In (path, fl) l -> Api.v1_sub_entries st p path fl = inl sel -> In (id, f) sel ->
+  exists g, In (id, g) es /\
+            (f_dp f = true -> f_dp g = true) /\ (f_target f = true -> f_target g = true) /\
+            (f_unit f = true -> f_unit g = true).
